@@ -599,6 +599,9 @@ fire('norm11-bom-cleared-after-newline-only', ['C20', 'C13', 'C09'], ['NORM-11']
      (PREFIX, "            column = -start\n            # The BOM has no width, but only the first line contains it.\n            bom = False\n", "            column = -start\n"),
      (PREFIX, "        if type_ == 'bom':\n            bom = True\n", "        if type_ == 'bom':\n            bom = True\n        elif type_ == 'newline':\n            bom = False\n"))
 
+fire('tok4-error-dedent-store-before-yield', ['C04', 'C09'], ['TOK-4'], 'the ERROR_DEDENT branch rewrites the top of the indentation stack before yielding (rt6-C04)',
+     (TOK, "                yield PythonToken(ERROR_DEDENT, '', (lnum, start), '')\n                indents[-1] = start\n", "                indents[-1] = start\n                yield PythonToken(ERROR_DEDENT, '', (lnum, start), '')\n"))
+
 # TOK-3 typestate
 fire('tok3-comment-drops-prefix', ['C01', 'C09'], ['TOK-3'], 'a comment inside brackets replaces the pending prefix instead of extending it',
      (TOK, "                else:\n                    additional_prefix = prefix + token\n            elif token in triple_quoted:", "                else:\n                    additional_prefix = token\n            elif token in triple_quoted:"))
